@@ -353,6 +353,19 @@ def leaf_contracts():
         returns="none", inline=INL + ["Equality.left", "Equality.right", "Equals._is_float"],
         property_clauses={"a_blank_never_equals_a_non_blank": "C01", "different_texts_are_equal_only_as_numbers": "C01"}, **{k: v for k, v in base.items() if k != "inline"},
         assumptions=["float(text) is an uninterpreted function of the text with an uninterpreted 'parses' predicate: 'nan'/'inf' texts are not distinguished (equals('nan','nan') is False natively)"]))
+    # ---- min_length()/max_length() (aliases too_long/too_short): at least / at most n characters
+    cs.append(Contract(
+        target=f"{FN}/strings/length.py::MinMaxLength.to_value",
+        types={**pair, "self.name": "str", "self.children.0.children.0.g_value": "str", "self.children.0.children.1.g_value": "int"},
+        requires=["self.value is None", " or ".join(f"self.name == '{n}'" for n in ("min_length", "max_length", "too_long", "too_short"))], modifies=pmods,
+        ensures={"min_length_is_at_least_n_characters": "implies(self.name == 'min_length' or self.name == 'too_long', self.value == (len(%s) >= %s))" % (a_, b_),
+                 "max_length_is_at_most_n_characters": "implies(self.name == 'max_length' or self.name == 'too_short', self.value == (len(%s) <= %s))" % (a_, b_),
+                 "returns_the_value": "same(result, self.value)"},
+        covers={"exactly_n": "len(%s) == %s and %s == 2 and self.value == True" % (a_, b_, b_)},
+        returns="val", inline=INL + ["Equality.left", "Equality.right"],
+        property_clauses={"min_length_is_at_least_n_characters": "C01", "max_length_is_at_most_n_characters": "C01"},
+        doc={"min_length_is_at_least_n_characters": "string_functions.md is loose ('more than or less than'); the names are read as a minimum / maximum length, bounds included"},
+        **{k: v for k, v in base.items() if k != "inline"}))
     # ---- exists(), empty(x)
     cs.append(Contract(target=f"{EU}::ExpressionUtility.is_empty", interface=True, types={"v": "val"}, ensures={"fn": "result == ufun_bool('is_empty', v)"}, returns="bool", class_fields=CF,
                        assumptions=["ExpressionUtility.is_empty(v) is a function of v only (None, 'None', 'nan', blank strings, empty containers: bounded in C01.bounded / C03.bounded)"]))
